@@ -152,6 +152,8 @@ pub fn check_html_cfg(html: &str, html_noids: Option<&str>, width: usize, rich: 
     let item_visible: Vec<bool> = items.iter().map(|(_, t)| t.chars().any(is_visible)).collect();
     let mut nontrivial = false;
     let mut seen_names: HashSet<String> = HashSet::new();
+    // (element, position of its marker in the event stream) for every checked id
+    let mut placed: Vec<(usize, usize)> = vec![];
     for e in dom.elements() {
         let name = match dom.attr(e, "id") {
             Some(i) => Some(i.to_string()),
@@ -195,6 +197,7 @@ pub fn check_html_cfg(html: &str, html_noids: Option<&str>, width: usize, rich: 
         }
         let pos = events.iter().position(|ev| matches!(ev, Ev::Frag(n, _) if *n == name)).unwrap();
         let Ev::Frag(_, marker_line) = events[pos].clone() else { unreachable!() };
+        placed.push((e, pos));
         // items of e's subtree and the first visible one
         let own: Vec<usize> = (0..items.len()).filter(|i| in_subtree(&dom, items[*i].0, e)).collect();
         let Some(&first) = own.iter().find(|i| item_visible[**i]) else { continue };
@@ -299,6 +302,22 @@ pub fn check_html_cfg(html: &str, html_noids: Option<&str>, width: usize, rich: 
             }
             if escope != 0 || matches!(dom.name(e), Some("li" | "dd" | "td" | "th")) || dom.ancestors(e).iter().any(|a| matches!(dom.name(*a), Some("li" | "blockquote" | "dd" | "td" | "th"))) {
                 nontrivial = true;
+            }
+        }
+    }
+    // markers of nested elements appear in document order: the outer element's first
+    for (i, (e1, p1)) in placed.iter().enumerate() {
+        for (e2, p2) in placed.iter().skip(i + 1) {
+            let (outer, inner, po, pi) = if in_subtree(&dom, *e2, *e1) { (*e1, *e2, *p1, *p2) } else if in_subtree(&dom, *e1, *e2) { (*e2, *e1, *p2, *p1) } else { continue };
+            if scope_of(&dom, outer) != scope_of(&dom, inner) {
+                continue;
+            }
+            st.class("nested_ids_order_checked");
+            if po > pi {
+                return Err(show(format!(
+                    "markers of nested elements are out of document order: <{} id={:?}> contains <{} id={:?}> but its marker comes later",
+                    dom.name(outer).unwrap_or("?"), dom.attr(outer, "id").or(dom.attr(outer, "name")), dom.name(inner).unwrap_or("?"), dom.attr(inner, "id").or(dom.attr(inner, "name"))
+                )));
             }
         }
     }
